@@ -137,9 +137,9 @@ def leaf (p : Path) (op : Op) (cv : CV) (label : String := "") : Leaf :=
 def qKey (g : Group) : Query :=
   { slot := .key, asc := true, from_ := 0, limit := 0, fromT := none, toT := none, maxResults := 0, filter := some g }
 
-/-- (finding id, store, query).  The first six fail under the current facts — each reproduced on
-    the real code by corpus cases 0–4b of harness/c08.go; the rest fail only under facts the tree
-    does not have (hint for NOT_EQUAL, OR-union despite a sub-group, no de-duplication). -/
+/-- (finding id, store, query).  The first seven fail under the facts of the tree before the
+    `fix:` commit — each reproduced on the real code by corpus cases 0–4b of harness/c08.go (the two
+    special-path ones no longer after it); the rest fail only under facts the tree does not have (hint for NOT_EQUAL, OR-union despite a sub-group, no de-duplication). -/
 def witnesses : List (String × List Rec × Query) := [
   ("C08-scan-equality-not-canonical",
     [rec "k1" (body [("a", .flt 23)]) 1, rec "k2" (body [("a", .int 5)]) 2],
@@ -182,14 +182,18 @@ theorem refutes_of_findings (cfg : Cfg) (h : findings cfg ≠ []) : ¬ Holds cfg
   obtain ⟨w, hw⟩ := List.exists_mem_of_ne_nil _ this
   exact refutes_of_witness cfg w.2.1 w.2.2 (List.mem_filter.mp hw).2
 
-/-- the facts of the tree as of this writing -/
+/-- the facts of the tree as of this writing (after the `fix:` commit that made `indexableHint`
+    refuse `[*]` / `#len` paths) -/
 def current : Cfg := {
-  indexableOps := [.eq, .strIn, .i32In, .i64In], excludesSpecialPaths := false, planOrBypassOnSubGroups := true,
+  indexableOps := [.eq, .strIn, .i32In, .i64In], excludesSpecialPaths := true, planOrBypassOnSubGroups := true,
   scanEqCanonical := false, bucketPagingAfterFilter := false, scanPagingAfterFilter := false, labelReattach := false,
   bucketChecksAttr := false, lookupInDedupes := true, unionDedupes := true, bucketWindowTimeOnly := false }
 
+/-- the facts before that commit -/
+def beforeFix : Cfg := { current with excludesSpecialPaths := false }
+
 def repaired : Cfg := { current with
-  excludesSpecialPaths := true, scanEqCanonical := true, bucketPagingAfterFilter := true, scanPagingAfterFilter := true,
+  scanEqCanonical := true, bucketPagingAfterFilter := true, scanPagingAfterFilter := true,
   labelReattach := true, bucketChecksAttr := true, bucketWindowTimeOnly := true }
 
 /-- float 5.75 against integer 5: only the scan route returns `k1` -/
@@ -198,11 +202,12 @@ theorem witness_float_vs_int :
     let q := qKey (.mk false [leaf [.field "a"] .eq (.i64 5)] [])
     keysOf (bucketRoute current store q) = ["k2"] ∧ keysOf (scanRoute current store q) = ["k1", "k2"] := by decide
 
-/-- path `l[*]`: the bucket finds nothing, the scan route finds `k1` -/
+/-- path `l[*]` (facts before the fix): the bucket finds nothing, the scan route finds `k1` -/
 theorem witness_wildcard_path :
     let store := [rec "k1" (body [("l", .arr [.str "a", .str "b"])]) 1, rec "k2" (body [("l", .arr [.str "b"])]) 2]
     let q := qKey (.mk false [leaf [.wild "l"] .eq (.str "a")] [])
-    keysOf (bucketRoute current store q) = [] ∧ keysOf (scanRoute current store q) = ["k1"] := by decide
+    keysOf (bucketRoute beforeFix store q) = [] ∧ keysOf (scanRoute beforeFix store q) = ["k1"] ∧
+    bucketRoute current store q = scanRoute current store q := by decide
 
 /-- From = 1 with a selective indexed leg -/
 theorem witness_paging :
@@ -222,8 +227,12 @@ theorem witness_attribute :
     let q := { qKey (.mk false [leaf [.field "a"] .eq (.i64 1)] []) with slot := .created }
     keysOf (bucketRoute current store q) = ["k1", "k2"] ∧ keysOf (scanRoute current store q) = ["k2"] := by decide
 
-theorem findings_current : findings current =
+theorem findings_beforeFix : findings beforeFix =
     ["C08-scan-equality-not-canonical", "C08-special-path-hinted", "C08-paging-before-residual",
+     "C08-indexed-leg-label-dropped", "C08-bucket-route-ignores-index-attribute", "C08-window-on-key-index"] := by decide
+
+theorem findings_current : findings current =
+    ["C08-scan-equality-not-canonical", "C08-paging-before-residual",
      "C08-indexed-leg-label-dropped", "C08-bucket-route-ignores-index-attribute", "C08-window-on-key-index"] := by decide
 
 theorem refutes_current : ¬ Holds current := refutes_of_findings current (by rw [findings_current]; simp)
